@@ -859,11 +859,23 @@ Section Conv.
     a <- convert_additional_args kids c hp ;;
     ret (append p a).
 
-  Definition is_ends_with_hashed_expr (arg : bundle) : bool :=
-    match rev (bkids arg) with
-    | e :: h :: _ => is_expr (bt e) && kind_eqb (bk h) KHash
-    | _ => false
+  (* the node's text ends with `#expr`, directly or inside its last child (at any depth) *)
+  Fixpoint ends_with_hashed (t : tree) : bool :=
+    match t with
+    | Leaf _ _ _ => false
+    | Inner _ cs _ =>
+        (fix go (prev : option tree) (l : list tree) : bool :=
+           match l with
+           | [] => false
+           | e :: r =>
+               match r with
+               | [] => (is_expr e && match prev with Some h => is_kind KHash h | None => false end)
+                       || ends_with_hashed e
+               | _ => go (Some e) r
+               end
+           end) None cs
     end.
+  Definition is_ends_with_hashed_expr (arg : bundle) : bool := ends_with_hashed (bt arg).
 
   Fixpoint position {A} (p : A -> bool) (l : list A) (i : nat) : option nat :=
     match l with
